@@ -23,3 +23,22 @@ pub broadcast proof fn lemma_pair_sum_len1(s: Seq<(Sig, Pk)>)
     assert(s.drop_last().len() == 0);
     assert(s.last() == s[0]);
 }
+
+/// PROVED: two and three pairing terms as plain sums (so the ORDER of the terms in a call is immaterial)
+pub broadcast proof fn lemma_pair_sum_len2(s: Seq<(Sig, Pk)>)
+    requires s.len() == 2,
+    ensures #[trigger] pair_sum(s) == fadd(fmul(s[0].0.dl(), s[0].1.dl()), fmul(s[1].0.dl(), s[1].1.dl()))
+{
+    lemma_pair_sum_len1(s.drop_last());
+    assert(s.drop_last()[0] == s[0]);
+    assert(s.last() == s[1]);
+}
+pub broadcast proof fn lemma_pair_sum_len3(s: Seq<(Sig, Pk)>)
+    requires s.len() == 3,
+    ensures #[trigger] pair_sum(s) == fadd(fadd(fmul(s[0].0.dl(), s[0].1.dl()), fmul(s[1].0.dl(), s[1].1.dl())), fmul(s[2].0.dl(), s[2].1.dl()))
+{
+    lemma_pair_sum_len2(s.drop_last());
+    assert(s.drop_last()[0] == s[0] && s.drop_last()[1] == s[1]);
+    assert(s.last() == s[2]);
+}
+pub broadcast group pair_sums { lemma_pair_sum_len1, lemma_pair_sum_len2, lemma_pair_sum_len3 }
